@@ -1399,3 +1399,81 @@ M("C19", "split-label-changes", CST,
 B("C19", "loops-over-list-copies", CST,
   "            for unit in continuum[annotator]:\n                continuum.remove(annotator, unit)\n                start_seg, end_seg = 0.0, 0.0",
   "            for unit in list(continuum[annotator]):\n                continuum.remove(annotator, unit)\n                start_seg, end_seg = 0.0, 0.0")
+
+# =============================================================================================
+# C09
+# =============================================================================================
+M("C09", "denominator-uses-ends", DIS,
+  """                    (unit1[2] + unit2[2]))
+            return dist * dist * delta_empty
+        return d_mat
+
+    def d(self, unit1: 'Unit', unit2: 'Unit'):
+        pos = ((abs(unit1.segment.start - unit2.segment.start) + abs(unit1.segment.end - unit2.segment.end)) /
+               (unit1.segment.duration + unit2.segment.duration))""",
+  """                    (unit1[1] + unit2[1]))
+            return dist * dist * delta_empty
+        return d_mat
+
+    def d(self, unit1: 'Unit', unit2: 'Unit'):
+        pos = ((abs(unit1.segment.start - unit2.segment.start) + abs(unit1.segment.end - unit2.segment.end)) /
+               (unit1.segment.end + unit2.segment.end))""", "R-C09-1", "ratio to the end positions: not translation invariant")
+M("C09", "absolute-position-term", DIS,
+  "            return dist * dist * delta_empty\n        return d_mat",
+  "            return dist * dist * delta_empty + (unit1[0] + unit2[0]) * 1e-6\n        return d_mat", "R-C09-1")
+M("C09", "criterium-plus-one", DIS,
+  "        criterium = c2n * delta_empty * nb_annotators", "        criterium = c2n * delta_empty * nb_annotators + 1", "R-C09-2",
+  "the cut no longer scales with delta_empty")
+M("C09", "delta-squared-in-empty-cost", DIS,
+  "                        res[unitary_alignment_i] += delta_empty\n", "                        res[unitary_alignment_i] += delta_empty * delta_empty\n", "R-C09-2")
+M("C09", "sampler-reads-delta-empty", SAM,
+  """    def init_sampling(self, reference_continuum: Continuum,
+                      ground_truth_annotators: Optional[Iterable['Annotator']] = None):
+        \"\"\"
+        Sets the sampling parameters using statistical values obtained from the reference continuum.
+""",
+  """    def tune(self, dissimilarity):
+        self._avg_gap = self._avg_gap * float(dissimilarity.delta_empty)
+
+    def init_sampling(self, reference_continuum: Continuum,
+                      ground_truth_annotators: Optional[Iterable['Annotator']] = None):
+        \"\"\"
+        Sets the sampling parameters using statistical values obtained from the reference continuum.
+""", "R-C09-5")
+M("C09", "absolute-kernel-not-homogeneous", DIS,
+  "            return (0 if unit1[3] == unit2[3] else 1) * delta_empty",
+  "            return (0 if unit1[3] == unit2[3] else 1) * delta_empty * delta_empty", "R-C09-2")
+M("C09", "reach-test-ignores-delta", CONT,
+  "                if dissimilarity.d(rightmost_unit, unit) > dissimilarity.delta_empty * self.num_annotators:",
+  "                if dissimilarity.d(rightmost_unit, unit) > self.num_annotators:", "R-C09-2")
+M("C09", "builder-adds-bound-offset", DIS,
+  "                unit_array[unit_id][0] = unit.segment.start\n",
+  "                unit_array[unit_id][0] = unit.segment.start\n        offset = continuum.bound_inf\n", "R-C09-3") if False else None
+M("C09", "alignment-path-reads-bounds", CONT,
+  """        disorders, possible_unitary_alignments = dissimilarity.valid_alignments(self)
+        # Definition of the integer linear program
+        n = len(disorders)
+        # Constraints matrix ("every unit must appear once and only once")
+        A = build_A(possible_unitary_alignments, sizes)
+
+        x = cp.Variable(shape=(n,), boolean=True)
+        try:
+            import cylp
+            cp.Problem(cp.Minimize(disorders.T @ x), [A @ x == 1])""",
+  """        disorders, possible_unitary_alignments = dissimilarity.valid_alignments(self)
+        disorders = disorders * (1 + 1e-9 * self.bound_sup)
+        # Definition of the integer linear program
+        n = len(disorders)
+        # Constraints matrix ("every unit must appear once and only once")
+        A = build_A(possible_unitary_alignments, sizes)
+
+        x = cp.Variable(shape=(n,), boolean=True)
+        try:
+            import cylp
+            cp.Problem(cp.Minimize(disorders.T @ x), [A @ x == 1])""", "R-C09-3")
+M("C09", "annotator-name-length-in-array", DIS,
+  "                unit_array[unit_id][2] = unit.segment.duration",
+  "                unit_array[unit_id][2] = unit.segment.duration + 0 * len(annotator)", "R-C09-4")
+B("C09", "algebraically-equal-positional", DIS,
+  "            return dist * dist * delta_empty\n        return d_mat", "            return delta_empty * dist ** 2\n        return d_mat")
+VARIANTS[:] = [v for v in VARIANTS if v is not None]
